@@ -16,6 +16,7 @@ type StreamCfg struct {
 	Unknown    bool // interleave unknown records (all wire types, groups)
 	Canonical  bool // no duplication of singular fields / no padding: "plain" values
 	MapBurst   int  // >0: prefer map-bearing fields and emit up to MapBurst entries per pick
+	keyCluster uint64 // != 0: base of the 64-bit map keys of the current burst
 	ListBurst  int  // >0: a picked repeated field is emitted up to ListBurst times in a row (many chunks, long lists)
 	// Avoid holds known-finding classes the generator must steer away from
 	// (see known_findings.json). Each avoided draw is counted in Excluded.
@@ -292,6 +293,11 @@ func (c *StreamCfg) GenStream(t *rapid.T, md protoreflect.MessageDescriptor, dep
 			if c.MapBurst > 0 {
 				burst = rapid.IntRange(1, c.MapBurst).Draw(t, "burst")
 			}
+			c.keyCluster = 0
+			if burst > 1 && rapid.IntRange(0, 3).Draw(t, "cluster") == 0 {
+				c.keyCluster = rapid.SampledFrom([]uint64{1 << 62, 1<<63 - 16, 1<<64 - 32, 1<<53 + 1, 3 << 61}).Draw(t, "clusterbase")
+				c.label("map keys clustered above 2^53")
+			}
 			for e := 0; e < burst; e++ {
 				c.label("map")
 				body := c.mapEntry(t, fd, depth)
@@ -374,11 +380,41 @@ func (c *StreamCfg) GenStream(t *rapid.T, md protoreflect.MessageDescriptor, dep
 func (c *StreamCfg) mapEntry(t *rapid.T, fd protoreflect.FieldDescriptor, depth int) []byte {
 	kfd, vfd := fd.MapKey(), fd.MapValue()
 	var body []byte
+	// a record of a number the entry does not declare may sit anywhere in it:
+	// before, between or after key and value
+	unkAt := -1
+	if !c.Canonical && c.Unknown && rapid.IntRange(0, 9).Draw(t, "entryunk") == 0 {
+		unkAt = rapid.IntRange(0, 2).Draw(t, "entryunkpos")
+	}
+	pos := 0
+	foreign := func() {
+		if unkAt == pos {
+			c.label("entry-unknown-field")
+			body = c.unknownRecordNum(t, body, protowire.Number(rapid.IntRange(3, 40).Draw(t, "entryunknum")), 0)
+			unkAt = -1
+		}
+		pos++
+	}
 	key := func() {
+		foreign()
 		body = c.tag(t, body, 1, wireTypeOf(kfd.Kind()))
+		if c.keyCluster != 0 && !c.Canonical && (kfd.Kind() == protoreflect.Int64Kind || kfd.Kind() == protoreflect.Uint64Kind || kfd.Kind() == protoreflect.Fixed64Kind || kfd.Kind() == protoreflect.Sfixed64Kind || kfd.Kind() == protoreflect.Sint64Kind) {
+			// keys of one burst huddle together far above 2^53
+			v := c.keyCluster + uint64(rapid.IntRange(0, 9).Draw(t, "clusterkey"))
+			switch kfd.Kind() {
+			case protoreflect.Fixed64Kind, protoreflect.Sfixed64Kind:
+				body = protowire.AppendFixed64(body, v)
+			case protoreflect.Sint64Kind:
+				body = protowire.AppendVarint(body, protowire.EncodeZigZag(int64(v)))
+			default:
+				body = protowire.AppendVarint(body, v)
+			}
+			return
+		}
 		body = c.scalarPayload(t, body, kfd)
 	}
 	val := func() {
+		foreign()
 		body = c.tag(t, body, 2, wireTypeOf(vfd.Kind()))
 		if vfd.Message() != nil {
 			body = c.lenPrefixed(t, body, c.GenStream(t, vfd.Message(), depth+1))
@@ -431,7 +467,9 @@ func (c *StreamCfg) mapEntry(t *rapid.T, fd protoreflect.FieldDescriptor, depth 
 	case 11:
 		c.label("entry-empty")
 	}
-	if !c.Canonical && c.Unknown && rapid.IntRange(0, 9).Draw(t, "entryunk") == 0 {
+	pos = 2
+	foreign() // after everything else, if drawn so (or if key / value were not emitted)
+	if unkAt >= 0 {
 		c.label("entry-unknown-field")
 		body = c.unknownRecordNum(t, body, protowire.Number(rapid.IntRange(3, 40).Draw(t, "entryunknum")), 0)
 	}
